@@ -289,7 +289,7 @@ fn run_case<G: AffineRepr + RefGens>(big: &Big<G>, curve: &str, pinned: &serde_j
 fn cases(ctx: &Ctx, curve: &str, big_n: usize, big_m: usize) -> Vec<Case> {
     let mut r = R::new(ctx.sub_seed(12, curve.len() as u64));
     let mut v = vec![];
-    let nh = ctx.n(60, 2500);
+    let nh = ctx.n(150, 3000);
     for i in 0..nh {
         let parties = r.below(big_m + 1);
         let len = 2 + r.below(6);
